@@ -25,6 +25,8 @@ VARIABLES kind,         \* result type of this promise/task family
           fin,          \* TaskData::finished
           stored,       \* TaskData::result != nullptr
           cont,         \* TaskData::continuation set
+          selfCap,      \* the stored continuation captured a copy of its own task (a reference cycle
+                        \* that only the wrapper's self-clearing after the run breaks)
           ctx,          \* "alive" | "dead": the QObject passed as context
           runs, got,    \* how often the user continuation ran / the value it saw
           pRefs, tRefs, \* live promise / task handles
@@ -33,7 +35,7 @@ VARIABLES kind,         \* result type of this promise/task family
           thenDone, finVal, due,   \* ghosts (history)
           hist          \* sequence of operations performed (behaviour export)
 
-mvars == <<kind, fin, stored, cont, ctx, runs, got, pRefs, tRefs, valLive, capLive, thenDone, finVal, due>>
+mvars == <<kind, fin, stored, cont, selfCap, ctx, runs, got, pRefs, tRefs, valLive, capLive, thenDone, finVal, due>>
 vars  == <<mvars, hist>>
 
 Refs == pRefs + tRefs
@@ -41,7 +43,7 @@ Vals(k) == IF k = "void" THEN {0} ELSE {1, 2}
 
 Init ==
     /\ kind \in Kinds
-    /\ fin = FALSE /\ stored = FALSE /\ cont = FALSE
+    /\ fin = FALSE /\ stored = FALSE /\ cont = FALSE /\ selfCap = FALSE
     /\ ctx = "alive"
     /\ runs = 0 /\ got = 0
     /\ pRefs = 1 /\ tRefs = 0
@@ -52,50 +54,56 @@ Init ==
 Log(r) == hist' = Append(hist, r)
 
 (* --- handle bookkeeping ------------------------------------------------ *)
-\* TaskData is freed with the last handle: ~TaskData frees the result, the
-\* std::function member frees the continuation.
-FreeIfLast(p, t) ==
-    IF p + t = 0 THEN valLive' = FALSE /\ capLive' = FALSE
-                 ELSE UNCHANGED <<valLive, capLive>>
+\* TaskData is freed with its last reference: ~TaskData frees the result, the
+\* std::function member frees the continuation. References are the live handles plus,
+\* while it is stored, a continuation that captured a copy of its own task.
+DataAlive(p, t, c, sc) == p + t > 0 \/ (c /\ sc)
+\* last conjunct of every action: what is alive follows from the new state
+Settle ==
+    /\ valLive' = (stored' /\ DataAlive(pRefs', tRefs', cont', selfCap'))
+    /\ capLive' = (cont' /\ DataAlive(pRefs', tRefs', cont', selfCap'))
 
 CopyPromise ==
     /\ pRefs >= 1 /\ pRefs < MaxRefs
     /\ pRefs' = pRefs + 1
     /\ Log([a |-> "CopyPromise"])
-    /\ UNCHANGED <<kind, fin, stored, cont, ctx, runs, got, tRefs, valLive, capLive, thenDone, finVal, due>>
+    /\ UNCHANGED <<kind, fin, stored, cont, selfCap, ctx, runs, got, tRefs, thenDone, finVal, due>>
+    /\ Settle
 
 MakeTask ==   \* promise.task() or a copy of an existing task
     /\ Refs >= 1 /\ tRefs < MaxRefs
     /\ tRefs' = tRefs + 1
     /\ Log([a |-> "MakeTask"])
-    /\ UNCHANGED <<kind, fin, stored, cont, ctx, runs, got, pRefs, valLive, capLive, thenDone, finVal, due>>
+    /\ UNCHANGED <<kind, fin, stored, cont, selfCap, ctx, runs, got, pRefs, thenDone, finVal, due>>
+    /\ Settle
 
 DropPromise ==
     /\ pRefs >= 1
     /\ pRefs' = pRefs - 1
-    /\ FreeIfLast(pRefs - 1, tRefs)
     /\ Log([a |-> "DropPromise"])
-    /\ UNCHANGED <<kind, fin, stored, cont, ctx, runs, got, tRefs, thenDone, finVal, due>>
+    /\ UNCHANGED <<kind, fin, stored, cont, selfCap, ctx, runs, got, tRefs, thenDone, finVal, due>>
+    /\ Settle
 
 DropTask ==
     /\ tRefs >= 1
     /\ tRefs' = tRefs - 1
-    /\ FreeIfLast(pRefs, tRefs - 1)
     /\ Log([a |-> "DropTask"])
-    /\ UNCHANGED <<kind, fin, stored, cont, ctx, runs, got, pRefs, thenDone, finVal, due>>
+    /\ UNCHANGED <<kind, fin, stored, cont, selfCap, ctx, runs, got, pRefs, thenDone, finVal, due>>
+    /\ Settle
 
 DestroyCtx ==
     /\ ctx = "alive"
     /\ ctx' = "dead"
     /\ Log([a |-> "DestroyCtx"])
-    /\ UNCHANGED <<kind, fin, stored, cont, runs, got, pRefs, tRefs, valLive, capLive, thenDone, finVal, due>>
+    /\ UNCHANGED <<kind, fin, stored, cont, selfCap, runs, got, pRefs, tRefs, thenDone, finVal, due>>
+    /\ Settle
 
 \* everything goes away at once (end of the owning scope)
 DropAll ==
     /\ pRefs' = 0 /\ tRefs' = 0 /\ ctx' = "dead"
-    /\ valLive' = FALSE /\ capLive' = FALSE
     /\ Log([a |-> "DropAll"])
-    /\ UNCHANGED <<kind, fin, stored, cont, runs, got, thenDone, finVal, due>>
+    /\ UNCHANGED <<kind, fin, stored, cont, selfCap, runs, got, thenDone, finVal, due>>
+    /\ Settle
 
 (* --- the user continuation runs: body b, executing on handle kind h ---- *)
 \* "dropOthers": the body drops every handle except the one whose member
@@ -108,25 +116,27 @@ BodyEffect(b, h) ==
 NoBody == UNCHANGED <<ctx, pRefs, tRefs>>
 
 (* --- QXmppTask::then ---------------------------------------------------- *)
-Then(b) ==
+\* sc: the continuation captures a copy of the task it is attached to
+Then(b, sc) ==
     /\ tRefs >= 1 /\ ctx = "alive" /\ ~thenDone
     /\ thenDone' = TRUE
-    /\ Log([a |-> "Then", b |-> b])
+    /\ Log([a |-> "Then", b |-> b, sc |-> sc])
     /\ IF fin
        THEN \* already finished: run now from the stored value, then reset it
             /\ IF kind = "void" \/ stored
                THEN /\ runs' = runs + 1 /\ got' = finVal
                     /\ BodyEffect(b, "t")
                ELSE /\ UNCHANGED <<runs, got>> /\ NoBody
-            /\ stored' = FALSE /\ valLive' = FALSE
+            /\ stored' = FALSE
             /\ due' = TRUE
-            /\ UNCHANGED <<cont, capLive>>      \* the functor dies with the call
+            /\ UNCHANGED <<cont, selfCap>>      \* the functor (and what it captured) dies with the call
        ELSE \* register context + wrapper
-            /\ cont' = TRUE /\ capLive' = TRUE
+            /\ cont' = TRUE /\ selfCap' = sc
             /\ due' = FALSE
             /\ NoBody
-            /\ UNCHANGED <<runs, got, stored, valLive>>
+            /\ UNCHANGED <<runs, got, stored>>
     /\ UNCHANGED <<kind, fin, finVal>>
+    /\ Settle
 
 (* --- QXmppPromise::finish ------------------------------------------------ *)
 Finish(v, b) ==
@@ -135,24 +145,26 @@ Finish(v, b) ==
     /\ Log([a |-> "Finish", v |-> v, b |-> b])
     /\ IF cont
        THEN IF ctx = "alive"
-            THEN \* wrapper: context alive -> f(value); then clears the slot
+            THEN \* wrapper: context alive -> f(value); then clears the slot (releasing the
+                 \* closure and whatever it captured, a copy of its own task included)
                  /\ runs' = runs + 1 /\ got' = v
                  /\ BodyEffect(b, "p")
-                 /\ cont' = FALSE /\ capLive' = FALSE
+                 /\ cont' = FALSE /\ selfCap' = FALSE
                  /\ due' = TRUE
-                 /\ UNCHANGED <<stored, valLive>>
+                 /\ UNCHANGED stored
             ELSE \* context dead: nothing runs, the slot keeps the wrapper
                  /\ NoBody
-                 /\ UNCHANGED <<runs, got, cont, capLive, stored, valLive, due>>
+                 /\ UNCHANGED <<runs, got, cont, selfCap, stored, due>>
        ELSE \* nobody waiting: keep a heap copy of the value
-            /\ stored' = (kind # "void") /\ valLive' = (kind # "void")
+            /\ stored' = (kind # "void")
             /\ NoBody
-            /\ UNCHANGED <<runs, got, cont, capLive, due>>
+            /\ UNCHANGED <<runs, got, cont, selfCap, due>>
     /\ UNCHANGED <<kind, thenDone>>
+    /\ Settle
 
 Next ==
     \/ CopyPromise \/ MakeTask \/ DropPromise \/ DropTask \/ DestroyCtx \/ DropAll
-    \/ \E b \in Bodies : Then(b)
+    \/ \E b \in Bodies : \E sc \in BOOLEAN : Then(b, sc)
     \/ \E b \in Bodies : \E v \in Vals(kind) : Finish(v, b)
 
 Spec == Init /\ [][Next]_vars
@@ -163,18 +175,21 @@ Spec == Init /\ [][Next]_vars
 P_AtMostOnce(r)        == r <= 1
 P_Value(r, g, fv)      == r = 1 => g = fv
 P_ExactlyOnce(r, d)    == (r = 1) <=> d
-P_Released(refs, lv, lc) == refs = 0 => (lv = 0 /\ lc = 0)
+\* held: a self-capturing continuation is still stored and has not run (the cycle the user
+\* built keeps the shared state alive until finish() runs and clears it)
+P_Released(refs, held, lv, lc) == (refs = 0 /\ ~held) => (lv = 0 /\ lc = 0)
 
 B2N(b) == IF b THEN 1 ELSE 0
 
 AtMostOnce  == P_AtMostOnce(runs)
 ValueSeen   == P_Value(runs, got, finVal)
 ExactlyOnce == P_ExactlyOnce(runs, due)
-Released    == P_Released(Refs, B2N(valLive), B2N(capLive))
+Released    == P_Released(Refs, cont /\ selfCap, B2N(valLive), B2N(capLive))
 TypeOK ==
     /\ kind \in {"void", "copy", "move"} /\ fin \in BOOLEAN /\ stored \in BOOLEAN /\ cont \in BOOLEAN
     /\ ctx \in {"alive", "dead"} /\ runs \in Nat /\ pRefs \in 0..MaxRefs /\ tRefs \in 0..MaxRefs
-    /\ (stored => fin) /\ (valLive <=> stored /\ Refs > 0) /\ (capLive => cont)
+    /\ (stored => fin) /\ (valLive => stored) /\ (capLive => cont) /\ (selfCap => cont)
+    /\ (runs >= 1 => ~(cont /\ selfCap) \/ ~thenDone)    \* a continuation that ran has released itself
 
 \* never after the context has died (action property)
 NoRunAfterDeath == [][ctx = "dead" => runs' = runs]_vars
@@ -182,7 +197,7 @@ NoRunAfterDeath == [][ctx = "dead" => runs' = runs]_vars
 \* re-initialisation used by the trace specification at an execution boundary
 Reinit(k) ==
     /\ kind' = k
-    /\ fin' = FALSE /\ stored' = FALSE /\ cont' = FALSE
+    /\ fin' = FALSE /\ stored' = FALSE /\ cont' = FALSE /\ selfCap' = FALSE
     /\ ctx' = "alive"
     /\ runs' = 0 /\ got' = 0
     /\ pRefs' = 1 /\ tRefs' = 0
